@@ -486,6 +486,25 @@ def r3_byte_accounting(ctx, rule='C07.R3'):
                         m_ = canon(strip_refs(peel(lv[2][0])))
                         return any(canon(strip_refs(peel(g_.expr_operand(a, c.b, 'T')))) == m_ for k_, a in enumerate(c.args) if k_ != idx)
                     good = all(passes_len(c) for c in sites)
+            if not good and want == 'Sub' and tt[0] == 'bin' and tt[1].startswith('Sub') and any(x[0] == 'field' and x[2] == ACC for x in walk(tt[2])):
+                # the amount remembered with the entry: `acc_bytes -= entry.bytes`, where every entry of that (private) record type is built
+                # with bytes = Message::length of the message it carries (a queued message cannot change)
+                a_ = peel(tt[3])
+                rec = str(a_[3]) if a_[0] == 'field' and len(a_) > 3 else ''
+                if rec.startswith(CH) and any(x[0] == 'call' and 'VecDeque::pop_' in str(x[1]) for x in walk(a_)):
+                    cons = []
+                    for g_ in P.fn_list:
+                        if not (g_.key.startswith(CH) or g_.key.startswith('<' + CH)) or g_.kind == 'promoted':
+                            continue
+                        for b_ in sorted(g_.reachable()):
+                            for i_, st_ in enumerate(g_.stmts(b_)):
+                                if st_['k'] == 'assign' and st_['r']['k'] == 'agg' and strip_generics(str(st_['r'].get('adt', ''))) == rec:
+                                    comp_ = dict(zip(st_['r'].get('fields', []), [g_.expr_operand(o, b_, i_) for o in st_['r']['ops']]))
+                                    lv = peel(comp_.get(a_[2], ('unknown',)))
+                                    ok_ = lv[0] == 'call' and lv[1] == MSG + '::length' and lv[2] and \
+                                        any(canon(strip_refs(peel(v_))) == canon(strip_refs(peel(lv[2][0]))) for k_, v_ in comp_.items() if k_ != a_[2])
+                                    cons.append(bool(ok_))
+                    good = bool(cons) and all(cons)
             ctx.check(good, 'acc-writer:%s' % f.key, 'the queue byte counter is only adjusted by enqueue (+length) and dequeue (-length)', f.where(b), show(tt))
             if good:
                 seen.add(f.key)
